@@ -2,7 +2,7 @@ from core import Unit as U
 HASH = ["secp256k1_sha256_write", "secp256k1_sha256_finalize"]
 ORACLES = ["secp256k1_ge_set_xquad", "secp256k1_fe_impl_is_square_var", "secp256k1_gej_add_ge_var", "secp256k1_gej_add_var",
            "secp256k1_gej_double_var", "secp256k1_pedersen_ecmult_small", "secp256k1_borromean_verify"]
-RW_ORACLES = ["secp256k1_pedersen_ecmult", "secp256k1_rangeproof_genrand", "secp256k1_rangeproof_recover_x", "secp256k1_rangeproof_recover_k"]
+RW_ORACLES = ["secp256k1_pedersen_ecmult", "secp256k1_rangeproof_genrand", "secp256k1_scalar_mul", "secp256k1_scalar_inverse"]
 VLOOPS = ["secp256k1_rangeproof_verify_impl.0:33", "secp256k1_rangeproof_verify_impl.1:33", "secp256k1_rangeproof_verify_impl.2:33",
           "secp256k1_rangeproof_verify_impl.3:129", "secp256k1_rangeproof_pub_expand.0:20", "secp256k1_rangeproof_pub_expand.1:5",
           "secp256k1_rangeproof_pub_expand.2:33"]
@@ -16,11 +16,11 @@ UNITS = [
       functions=["secp256k1_rangeproof_info", "secp256k1_rangeproof_getheader_impl"], timeout=300, min_obl=50, unwind=20, replay=True,
       closed_by="full unwinding (exp <= 18, 8 length bytes)", note="all byte strings, plen <= 6000, every NULL/non-NULL combination"),
     U("C07.rangeproof_verify", ["C07", "C10"], "harness/C07/rangeproof_api.c", "h_verify",
-      replace=HASH + ORACLES, assumed=ORACLES, functions=["secp256k1_rangeproof_verify"] + FUNCS,
+      assumed=ORACLES, functions=["secp256k1_rangeproof_verify"] + FUNCS,
       timeout=3000, min_obl=300, unwind=34, unwindset=VLOOPS, tier="thorough", closed_by=CLOSED,
       note="all byte strings, plen <= 6000 (exact object bounds), every NULL/non-NULL combination; byte readers stubbed (C10.leaf_*)"),
     U("C07.rangeproof_rewind", ["C07", "C09"], "harness/C07/rangeproof_api.c", "h_rewind",
-      replace=HASH + ORACLES + RW_ORACLES + ["secp256k1_rangeproof_ch32xor"], assumed=ORACLES + RW_ORACLES,
+      replace=["secp256k1_rangeproof_genrand", "secp256k1_rangeproof_ch32xor"], assumed=ORACLES + RW_ORACLES,
       functions=["secp256k1_rangeproof_rewind", "secp256k1_rangeproof_rewind_inner"] + FUNCS, loops=True,
       timeout=3600, min_obl=300, unwind=34, unwindset=VLOOPS + RLOOPS, tier="thorough", closed_by=CLOSED + "; message copy loop by loop contract (hooks/C09_rewind_msgcopy.diff)",
       note="needs hook C09_rewind_msgcopy in /repo; all byte strings, plen <= 6000, message buffer of every length <= 5000"),
